@@ -297,3 +297,79 @@ impl Group for Framing {
         (0..ks.len()).map(|i| { let mut k = ks.clone(); k.remove(i); format!("{} {} {}", p[0], p[1], list(k)) }).collect()
     }
 }
+
+/// bodies larger than what the kernel takes in one write: the declared length is still what follows, and the connection
+/// stays in step afterwards
+pub struct Huge;
+impl Group for Huge {
+    fn timing_sensitive(&self) -> bool {
+        true
+    }
+    fn name(&self) -> &'static str {
+        "c08.huge"
+    }
+    fn rule(&self) -> &'static str {
+        "a real loopback server; one keep-alive connection: GET /small, GET /huge (a handler's body of 5-24 MiB of noise, far more than one socket write takes), GET /small, HEAD /small, GET /huge, HEAD /huge; the client reads at once or after a pause (the socket buffers are full meanwhile); oracle: every response complete — content-length equals the body bytes that follow, the bytes are the handler's, HEAD declares the GET's length — and the responses after it belong to their requests; non-trivial = always"
+    }
+    fn parallel(&self) -> bool {
+        false
+    }
+    fn compare_with_model(&self, _line: &str) -> bool {
+        false
+    }
+    fn generate(&self, ctx: &Ctx, _rng: &mut Rng) -> Vec<String> {
+        let mut v = Vec::new();
+        let sizes: &[usize] = if ctx.mode == Mode::Quick { &[5, 12] } else { &[5, 8, 12, 24] };
+        for mib in sizes {
+            for pause in [0, 300] {
+                v.push(format!("c08.huge {mib} {pause}"));
+            }
+        }
+        v
+    }
+    fn run_impl(&self, _ctx: &Ctx, line: &str) -> String {
+        let p: Vec<&str> = line.split(' ').collect();
+        let (mib, pause): (usize, u64) = (p[1].parse().unwrap(), p[2].parse().unwrap());
+        let size = mib << 20;
+        let mut ext = Extensions::empty();
+        ext.add_prepare_single("/small", prepare!(_r, _h, _p, _a, { FatResponse::no_cache(Response::new(Bytes::from_static(b"a small body of thirty-one bytes"))) }));
+        ext.add_prepare_single("/huge", prepare!(_r, _h, _p, _a, move |size: usize| {
+            let mut r = Response::new(Bytes::from(gen_noise(*size, 5)));
+            r.headers_mut().insert("content-type", HeaderValue::from_static("application/octet-stream"));
+            FatResponse::no_cache(r)
+        }));
+        let mut host = Host::unsecure("localhost", "/nonexistent", ext, host::Options::default());
+        host.limiter.disable();
+        let Some(srv) = TestServer::try_start(HostCollection::builder().insert(host).build()) else { return "inconclusive: server did not start".into() };
+        let Some(stream) = connect_retry(srv.port) else { srv.stop(); return "inconclusive: connect".into() };
+        let _ = stream.set_read_timeout(Some(std::time::Duration::from_secs(4)));
+        let mut cl = StrictClient::new(stream);
+        let want = gen_noise(size, 5);
+        let mut problems = Vec::new();
+        for (i, (m, path)) in [("GET", "/small"), ("GET", "/huge"), ("GET", "/small"), ("HEAD", "/small"), ("GET", "/huge"), ("HEAD", "/huge")].iter().enumerate() {
+            if cl.send(format!("{m} {path} HTTP/1.1\r\nhost: localhost\r\n\r\n").as_bytes()).is_err() { problems.push(format!("request {i}: send failed")); break; }
+            if *path == "/huge" && pause > 0 { std::thread::sleep(std::time::Duration::from_millis(pause)); }
+            cl.captured.clear();
+            let r = match cl.read_response(*m == "HEAD") {
+                Ok(r) => r,
+                Err(e) => { problems.push(format!("request {i} ({m} {path}): {e:?} after {} bytes of the response", cl.captured.len())); break; }
+            };
+            let clen: Option<usize> = r.header("content-length").and_then(|v| std::str::from_utf8(v).ok()).and_then(|s| s.parse().ok());
+            let expect_len = if *path == "/huge" { size } else { 32 };
+            if r.status != 200 { problems.push(format!("request {i} ({m} {path}): status {}", r.status)); }
+            if clen != Some(expect_len) { problems.push(format!("request {i} ({m} {path}): content-length {clen:?}, the body has {expect_len} bytes")); }
+            if *m == "GET" && r.body.len() != expect_len { problems.push(format!("request {i} ({m} {path}): {} body bytes follow", r.body.len())); }
+            if *m == "GET" && *path == "/huge" && r.body != want { problems.push(format!("request {i}: the bytes differ from the handler's")); }
+            if *m == "GET" && *path == "/small" && r.body != b"a small body of thirty-one bytes" { problems.push(format!("request {i}: not the small body: {:?}", String::from_utf8_lossy(&r.body[..r.body.len().min(40)]))); }
+        }
+        srv.stop();
+        if problems.is_empty() { "ok".into() } else { problems.join(" | ") }
+    }
+    fn oracle(&self, _ctx: &Ctx, line: &str, out: &str) -> Option<(String, String)> {
+        if out.starts_with("inconclusive") || out == "ok" { return None; }
+        Some((format!("huge:{line}"), out.to_owned()))
+    }
+    fn nontrivial(&self, _l: &str, _o: &str) -> bool {
+        true
+    }
+}
